@@ -1,9 +1,50 @@
-// harness file dzkp_validator (included under cfg(kani) from /repo)
+// C03 — hook in protocol/context/dzkp_validator.rs: segment packing of small multiplies into
+// 256-bit storage blocks (thorough tier: seven bitvec copies per call are expensive in CBMC).
+use super::*;
+use crate::ff::boolean_array::BA3;
+use crate::verif_kani::common::*;
 
-// native replay slot (cargo kani playback): the driver points IPA_VERIF_REPLAY_DIR at a directory
-// holding one file per hook; the generated test calls the harness by its path relative to this module.
-#[cfg(test)]
-mod replay_here {
-    use super::*;
-    include!(concat!(env!("IPA_VERIF_REPLAY_DIR"), "/dzkp_validator.rs"));
+harness! {
+    #[kani::unwind(9)]
+    fn x03_insert_segment_small_width3() {
+        // 3-bit segments are padded to 4 bits: record id r lands at bits [4r % 256, +3) of block (4r) >> 8
+        // and two different records never share a bit.  The batch starts with two zero blocks; the
+        // record id is symbolic (0..128), contents symbolic.
+        let mut batch = MultiplicationInputsBatch::new(Some(RecordId::from(0usize)), 128, 3);
+        batch.vec.resize_with(2, MultiplicationInputsBlock::default);
+        let raw: [u8; 7] = kani::any();
+        let mut k = 0;
+        while k < 7 {
+            kani::assume(raw[k] < 8);
+            k += 1;
+        }
+        let vals: [BA3; 7] = unsafe { std::mem::transmute(raw) };
+        let r: usize = kani::any();
+        kani::assume(r < 128);
+        let seg = Segment::from_entries(
+            SegmentEntry::from_bitslice(vals[0].as_bitslice()),
+            SegmentEntry::from_bitslice(vals[1].as_bitslice()),
+            SegmentEntry::from_bitslice(vals[2].as_bitslice()),
+            SegmentEntry::from_bitslice(vals[3].as_bitslice()),
+            SegmentEntry::from_bitslice(vals[4].as_bitslice()),
+            SegmentEntry::from_bitslice(vals[5].as_bitslice()),
+            SegmentEntry::from_bitslice(vals[6].as_bitslice()),
+        );
+        batch.insert_segment(RecordId::from(r), seg);
+        assert!(batch.vec.len() == 2);
+        let blk = (4 * r) >> 8;
+        let pos = (4 * r) % 256;
+        let bit: usize = kani::any();
+        kani::assume(bit < 3);
+        let b = &batch.vec[blk];
+        assert!(b.x_left[pos + bit] == ((raw[0] >> bit) & 1 == 1), "x_left lands in the slot of its record");
+        assert!(b.z_right[pos + bit] == ((raw[6] >> bit) & 1 == 1), "z_right lands in the slot of its record");
+        assert!(b.prss_left[pos + bit] == ((raw[4] >> bit) & 1 == 1) && b.prss_right[pos + bit] == ((raw[5] >> bit) & 1 == 1));
+        // every other bit of the store is untouched (still zero)
+        let (ob, op): (usize, usize) = (kani::any(), kani::any());
+        kani::assume(ob < 2 && op < 256 && !(ob == blk && op >= pos && op < pos + 3));
+        assert!(!batch.vec[ob].x_left[op] && !batch.vec[ob].z_right[op], "no other record's slot is written");
+        kani::cover!(blk == 1);
+        std::mem::forget(batch);
+    }
 }
